@@ -159,8 +159,10 @@ class Acc:
                                  if model is not None else None))
         return False
 
-    def concrete(self, name, ok, info=None):
-        """A concrete (solver-free) obligation evaluated on a path's concrete output."""
+    def concrete(self, name, ok, info=None, eng=None):
+        """A concrete (solver-free) obligation evaluated on a path's concrete output.
+        With `eng`, a failing obligation carries a model of the path so that the path
+        can be replayed on the unpatched code."""
         self.inc("obligations")
         rec = self.by_ob.setdefault(name, [0, 0])
         rec[0] += 1
@@ -170,7 +172,17 @@ class Acc:
             return True
         self.inc("violating_obligations")
         if len(self.cex) < MAX_CEX_PER_JOB:
-            self.cex.append(dict(ob=name, info=info, model=None))
+            model = None
+            if eng is not None:
+                try:
+                    from .witness import robust_model
+                    m, _ = robust_model(eng)
+                    if m is None:
+                        m = eng.path_model()
+                    model = model_to_dict(m) if m is not None else None
+                except Exception:
+                    model = None
+            self.cex.append(dict(ob=name, info=info, model=model))
         return False
 
     def merge(self, o):
